@@ -288,6 +288,13 @@ class TypeInfer:
                         bind_target(tgt, t)
                 elif isinstance(n, ast.AnnAssign) and n.value is not None:
                     bind_target(n.target, self.annotation_type(n.annotation, fn.module) or self.expr_type(n.value, fn, env))
+                elif isinstance(n, ast.NamedExpr) and isinstance(n.target, ast.Name):
+                    # (name := value) binds a local of the enclosing function
+                    t_ = self.expr_type(n.value, fn, env)
+                    if n.target.id not in env:
+                        env[n.target.id] = t_
+                    else:
+                        bind(n.target.id, t_)
                 elif isinstance(n, (ast.For, ast.comprehension)):
                     it = self.expr_type(n.iter, fn, env)
                     bind_target(n.target, self.elem_type(it, n.iter, fn, env))
@@ -417,6 +424,13 @@ class TypeInfer:
                         return self.return_type(ms[0])
             return None
         if isinstance(e, ast.Call):
+            if len(e.args) == 2 and not e.keywords and isinstance(e.func, (ast.Name, ast.Attribute)) and mod is not None:
+                nm_ = e.func.id if isinstance(e.func, ast.Name) else e.func.attr
+                if nm_ == 'cast':
+                    r_ = self.prog.resolve_name(nm_, mod) if isinstance(e.func, ast.Name) else self.prog.resolve_expr_static(e.func, mod)
+                    if r_ and r_[0] == 'ext' and r_[1] == 'typing.cast':
+                        # typing.cast(T, x): x itself, with the type the author states (falling back to x's own)
+                        return self.annotation_type(e.args[0], mod) or self.expr_type(e.args[1], fn, env, mod)
             return self.call_type(e, fn, env, mod)
         if isinstance(e, (ast.List, ast.ListComp)):
             if isinstance(e, ast.List):
